@@ -45,6 +45,12 @@ def encryption_ids():
 
 def entry(kid):
     """pool entry; 'kid@H,S' is the same ECDH key carrying other KDF parameters (hash id, KEK cipher id)"""
+    if '#' in kid:
+        # 'kid#N': the same RSA key published under algorithm id N (2 = encrypt-only, 3 = sign-only; RFC 4880 9.1)
+        base, alg = kid.split('#')
+        e = dict(pool()[base])
+        e['alg'] = int(alg)
+        return e
     if '@' in kid:
         base, kdf = kid.split('@')
         e = dict(pool()[base])
